@@ -49,6 +49,22 @@ var glyphServerWeave = []weave.PkgConfig{
 }
 
 var specs = map[string]*propSpec{
+	"C06": {
+		ID: "C06", Title: "declared authentication fails closed (stateful facet)",
+		TestPkg: "cmd/glyph", HarnessDir: "C06", HarnessExtra: []string{"glyphcommon"},
+		Weave:     glyphServerWeave,
+		QuickSecs: 45, ThoroughSecs: 600, Chunk: 100,
+		Rule: "each run draws a credential configuration (JWT secret / API keys set, unset or blank; or BasicAuthMiddlewareWithConfig driven directly with small lockout parameters), an execution mode, 1-6 clients and for each a timed sequence of requests (canonical valid credential, none, wrong, empty, prefix only, other scheme, valid credential in the wrong header, credential of the other auth type, forged forwarding headers) with gaps placed around lockout expiry, reset window and cleanup ticks and up to 3 requests in flight; a run is non-trivial if at least two tasks were runnable at once and a preemption happened, or a fault (request aligned with a cleanup tick, clock jump) fired; distinct = distinct fingerprints (schedule hash combined with workload and fault tapes) among the non-trivial runs",
+		Components: []component{
+			{"parser, compiler, setupRoutes, createHandler, routeMiddlewares/authMiddleware/apiKeyMiddleware/denyAllMiddleware (cmd/glyph)", "real-woven", "L0"},
+			{"pkg/server BasicAuthMiddlewareWithConfig, recordAuthFailure, getClientIP, cleanup goroutine", "real-woven", "L0 + race probes"},
+			{"interpreter / VM executing the marker route body", "real-woven", "L0"},
+			{"TCP sockets / net/http server loop", "stub", "handler invoked directly with httptest request and recorder"},
+			{"clock, tickers", "stub", "testing/synctest fake clock moved only by the simulator"},
+			{"pkg/apikey validator", "not-run", "not wired into `+ auth(apikey)` routes by cmd/glyph"},
+		},
+		FaultKinds: []string{"request-at-cleanup-tick", "clock-jump"},
+	},
 	"C11": {
 		ID: "C11", Title: "rate limits bound admitted traffic per client",
 		TestPkg: "cmd/glyph", HarnessDir: "C11", HarnessExtra: []string{"glyphcommon"},
